@@ -9,7 +9,7 @@
 
 /* ---- fprintf: recording model. An event is appended for the formats of the class header and of the constructor signature;
  * the %s argument is recorded by its first character (the harness uses one-character names) ---- */
-enum { EV_CLASS_OPEN = 1, EV_BASE, EV_BASE_DEFAULT, EV_CLASS_CLOSE, EV_INIT_OPEN, EV_INH, EV_OWN, EV_INIT_CLOSE };
+enum { EV_CLASS_OPEN = 1, EV_BASE, EV_BASE_DEFAULT, EV_CLASS_CLOSE, EV_INIT_OPEN, EV_INH, EV_OWN, EV_INIT_CLOSE, EV_ENUM_OPEN, EV_ENUM_ITEM, EV_ENUM_CLOSE };
 #define NEV 24
 static int g_ev[NEV], g_ech[NEV], g_eint[NEV], g_nev, g_kw_suffix;
 static int feq(const char *a, const char *b) { int i = 0; while (i < 28 && a[i] && a[i] == b[i]) i++; return a[i] == b[i]; }
@@ -28,6 +28,11 @@ static int verif_fprintf(FILE *f, const char *fmt, ...)
     else if (feq(fmt, "inherited%i__%s , ")) { int i = va_arg(ap, int); const char *s = va_arg(ap, const char *); ev(EV_INH, s[0], i); }
     else if (feq(fmt, "%s,")) { const char *s = va_arg(ap, const char *); ev(EV_OWN, s[0], 0); }
     else if (feq(fmt, " ):\n")) ev(EV_INIT_CLOSE, 0, 0);
+    else if (feq(fmt, "%s = ENUMERATION('%s','")) { const char *s = va_arg(ap, const char *); const char *t = va_arg(ap, const char *); ev(EV_ENUM_OPEN, s[0], s == t ? 0 : 2); }
+    else if (feq(fmt, "%s_ = ENUMERATION('%s_','")) { const char *s = va_arg(ap, const char *); const char *t = va_arg(ap, const char *); ev(EV_ENUM_OPEN, s[0], s == t ? 1 : 2); }
+    else if (feq(fmt, "%s ")) { const char *s = va_arg(ap, const char *); ev(EV_ENUM_ITEM, s[0], 0); }
+    else if (feq(fmt, "%s_ ")) { const char *s = va_arg(ap, const char *); ev(EV_ENUM_ITEM, s[0], 1); }
+    else if (feq(fmt, "')\n")) ev(EV_ENUM_CLOSE, 0, 0);
     va_end(ap);
     return 0;
 }
@@ -48,6 +53,12 @@ static char g_tn[2] = "t";
 char *GetAttrTypeName(Type t) { (void)t; return g_tn; }
 void ATTRIBUTE_INITIALIZER__out(Expression e, int paren, int previous_op, FILE *file) { (void)e; (void)paren; (void)previous_op; (void)file; }
 void WHEREPrint(Linked_List wheres, int level, FILE *file) { (void)wheres; (void)level; (void)file; }
+
+/* libexpress dictionary iteration (assumed contract): after HASHlistinit_by_type, DICTdo yields every entry of the requested kind once, then 0;
+ * the harness prepares the entries */
+static void *g_items[3]; static int g_item_n, g_item_pos; static Dictionary g_iter_dict;
+void HASHlistinit_by_type(Hash_Table table, HashEntry *he, char type) { (void)he; g_iter_dict = table; g_item_pos = 0; __CPROVER_assert(type == OBJ_ENUM, "the items are looked up as enumeration items"); }
+void *DICTdo(DictionaryEntry *de) { (void)de; if (g_item_pos < g_item_n) return g_items[g_item_pos++]; return 0; }
 
 /* ---- specification table: the reserved words of Python 3 that can be spelled as a (lower-case) EXPRESS identifier, and the
  * decorator name the generated classes use ---- */
@@ -155,3 +166,24 @@ void h_class_header_and_ctor_shallow_first(void) { class_header_and_ctor(0); }
  * claim "nothing was recorded" has to be refuted; a contradictory assumption or an empty transcript model would let it verify */
 void h_canary_transcript_nonempty(void) { class_header_and_ctor(1); __CPROVER_assert(g_nev == 0, "canary: no print call was recorded (must be refuted)"); }
 void h_canary_keyword(void) { static char w[] = "x"; __CPROVER_assert(is_python_keyword(w), "canary: an ordinary identifier is a keyword (must be refuted)"); }
+
+/* C18: "one definition per defined type with ... enumeration items": the definition of an enumeration type names the type (twice, the
+ * same way), then every item the dictionary yields exactly once and in that order, a Python keyword with a trailing underscore, and is closed */
+void h_enum_definition(void)
+{
+    IN(int, in_n); IN(int, in_kw0); IN(int, in_kw1); IN(int, in_tkw);
+    static char t_plain[] = "t", t_kw[] = "global", i_x[] = "x", i_y[] = "y", i_def[] = "def", i_pass[] = "pass";
+    static struct Scope_ et; static struct Expression_ e0, e1; static struct Hash_Table_ tab; static FILE fobj;
+    __CPROVER_assume(in_n >= 0 && in_n <= 2);
+    et.symbol.name = in_tkw ? t_kw : t_plain; et.symbol_table = &tab;
+    e0.symbol.name = in_kw0 ? i_def : i_x; e1.symbol.name = in_kw1 ? i_pass : i_y;
+    g_items[0] = &e0; g_items[1] = &e1; g_item_n = in_n;
+    g_nev = 0; g_iter_dict = 0;
+    TYPEenum_lib_print(&et, &fobj);
+    __CPROVER_assert(g_iter_dict == &tab, "the items come from the type's own symbol table");
+    __CPROVER_assert(g_nev == in_n + 2, "C18 an enumeration definition is the opening, one entry per item, the closing");
+    __CPROVER_assert(g_ev[0] == EV_ENUM_OPEN && g_ech[0] == (in_tkw ? 'g' : 't') && g_eint[0] == (in_tkw ? 1 : 0), "C18 the enumeration is defined under the type's name, given the same way as variable and as ENUMERATION name, a Python keyword with a trailing underscore");
+    if (in_n >= 1) __CPROVER_assert(g_ev[1] == EV_ENUM_ITEM && g_ech[1] == (in_kw0 ? 'd' : 'x') && g_eint[1] == (in_kw0 ? 1 : 0), "C18 the first enumeration item is listed, a Python keyword with a trailing underscore");
+    if (in_n >= 2) __CPROVER_assert(g_ev[2] == EV_ENUM_ITEM && g_ech[2] == (in_kw1 ? 'p' : 'y') && g_eint[2] == (in_kw1 ? 1 : 0), "C18 the second enumeration item is listed after the first");
+    __CPROVER_assert(g_ev[in_n + 1] == EV_ENUM_CLOSE, "C18 the enumeration definition is closed after the last item");
+}
